@@ -18,3 +18,19 @@ package text
 //@     invariant 1 <= i && i <= len(fragments) && len(currentLine) > 0
 //@     invariant lsum(lines, len(lines)) + wsum(currentLine, len(currentLine)) == wsum(fragments, i)
 //@     invariant forall j int :: {lines[j]} 0 <= j && j < len(lines) ==> len(lines[j]) > 0
+
+// Form XObjects can invoke one another (and themselves): the mutual recursion invokeXObject <-> processOperation
+// is bounded by the nesting counter.
+//@ func (*Extractor) invokeXObject results (err)
+//@   property C02
+//@   flags nosafety
+//@   decreases e.maxXObjectDepth - e.xobjectDepth, 0
+//@   ensures depth_restored: e.xobjectDepth == old(e.xobjectDepth) && e.maxXObjectDepth == old(e.maxXObjectDepth)
+//@   loop 0:
+//@     invariant e.xobjectDepth == entry(e.xobjectDepth) && e.maxXObjectDepth == entry(e.maxXObjectDepth)
+
+//@ func (*Extractor) processOperation results (err)
+//@   property C02
+//@   flags nosafety
+//@   decreases e.maxXObjectDepth - e.xobjectDepth, 1
+//@   ensures depth_restored: e.xobjectDepth == old(e.xobjectDepth) && e.maxXObjectDepth == old(e.maxXObjectDepth)
